@@ -31,13 +31,16 @@ type NetOp struct {
 	FF      string `json:"ff,omitempty"` // "", "ff", "no-ff", "ff-only"
 	Skew    int    `json:"skew,omitempty"` // hours added to the node clock before the op (may be negative)
 	Other   string `json:"other,omitempty"`
-	Specs   []NetSpec `json:"specs,omitempty"` // fetch: explicit refspecs instead of the configured one
+	Specs   []NetSpec `json:"specs,omitempty"` // fetch / push: explicit refspecs
+	Mirror  bool      `json:"mirror,omitempty"` // push --mirror
 }
 
 type NetSpec struct {
 	Branch string `json:"branch,omitempty"`
-	Tags   bool   `json:"tags,omitempty"` // refs/tags/*:refs/tags/*
+	Tags   bool   `json:"tags,omitempty"` // fetch: refs/tags/*:refs/tags/*
 	Plus   bool   `json:"plus,omitempty"`
+	Delete bool   `json:"delete,omitempty"` // push: :refs/heads/<branch>
+	Tag    string `json:"tag,omitempty"`    // push: refs/tags/<tag>:refs/tags/<tag>
 }
 
 type NetPlan struct {
@@ -139,6 +142,19 @@ func genNetPlan(r *Rand, tier string, focus string, faults bool) NetPlan {
 			}
 		case x < 80:
 			op = NetOp{Node: node, Op: "push", Branch: b, Force: r.Chance(0.15), Plus: r.Chance(0.1)}
+			switch r.Intn(6) {
+			case 0:
+				op.Mirror = true
+			case 1, 2:
+				for _, bb := range netBranches {
+					if r.Chance(0.6) {
+						op.Specs = append(op.Specs, NetSpec{Branch: bb, Plus: r.Chance(0.25), Delete: r.Chance(0.12)})
+					}
+				}
+				if r.Chance(0.4) {
+					op.Specs = append(op.Specs, NetSpec{Tag: Pick(r, []string{"v1", "v2"}), Plus: r.Chance(0.2)})
+				}
+			}
 		case x < 92:
 			op = NetOp{Node: node, Op: "pull", Branch: b, FF: Pick(r, []string{"", "ff", "no-ff", "ff-only"}), Depth: Pick(r, []int{0, 0, 1})}
 		default:
@@ -522,11 +538,56 @@ func execNet(t *testing.T, raw json.RawMessage, res *Result, focus string) {
 				spec = "+" + spec
 			}
 			args = []string{"push", "origin", spec}
+			if op.Mirror {
+				args = []string{"push", "origin", "--mirror"}
+			} else if len(op.Specs) > 0 {
+				args = []string{"push", "origin"}
+				for _, sp := range op.Specs {
+					var x string
+					switch {
+					case sp.Tag != "":
+						if sp.Tag != "v1" && sp.Tag != "v2" {
+							res.Invalid("tag")
+							return
+						}
+						if _, ok := refsBefore["tags/"+sp.Tag]; !ok {
+							continue
+						}
+						x = fmt.Sprintf("refs/tags/%s:refs/tags/%s", sp.Tag, sp.Tag)
+					case sp.Delete:
+						if _, ok := rRefsBefore["heads/"+sp.Branch]; !ok {
+							continue
+						}
+						x = ":refs/heads/" + sp.Branch
+					default:
+						okb := false
+						for _, bb := range netBranches {
+							if bb == sp.Branch {
+								okb = true
+							}
+						}
+						if !okb {
+							res.Invalid("spec branch")
+							return
+						}
+						if _, ok := refsBefore["heads/"+sp.Branch]; !ok {
+							continue
+						}
+						x = fmt.Sprintf("refs/heads/%s:refs/heads/%s", sp.Branch, sp.Branch)
+					}
+					if sp.Plus && !sp.Delete {
+						x = "+" + x
+					}
+					args = append(args, x)
+				}
+				if len(args) == 2 {
+					continue
+				}
+			} else if _, ok := refsBefore["heads/"+op.Branch]; !ok {
+				continue // nothing to push
+			}
 			if op.Force {
 				args = append(args, "--force")
-			}
-			if _, ok := refsBefore["heads/"+op.Branch]; !ok {
-				continue // nothing to push
 			}
 		case "pull":
 			if !validBranch {
@@ -696,7 +757,13 @@ func execNet(t *testing.T, raw json.RawMessage, res *Result, focus string) {
 			// what the client asked the remote to do
 			for _, um := range srv.Received[recvStart:] {
 				for name, u := range um {
-					if u.Sum == nil || u.OldSum == nil || isForced {
+					refForced := isForced || op.Mirror
+					for _, sp := range op.Specs {
+						if sp.Plus && ((sp.Tag != "" && name == "tags/"+sp.Tag) || (sp.Tag == "" && name == "heads/"+sp.Branch)) {
+							refForced = true
+						}
+					}
+					if u.Sum == nil || u.OldSum == nil || refForced {
 						continue
 					}
 					if strings.HasPrefix(name, "tags/") {
@@ -773,6 +840,31 @@ func execNet(t *testing.T, raw json.RawMessage, res *Result, focus string) {
 						res.Violate(pfx+"-push-"+c, "%s: remote ref %s -> %x: %s", when, tr.Name, tr.New, d)
 						return
 					}
+				}
+				if success && op.Mirror && !faultDuring && !strings.Contains(cr.Stdout, "remote rejected") {
+					for name, sum := range refsAfter {
+						if strings.HasPrefix(name, "txs/") {
+							continue
+						}
+						if !bytes.Equal(rRefsAfter[name], sum) {
+							res.Violate(pfx+"-mirror-incomplete", "%s: after `push --mirror` remote ref %s is %x, local %x\n%s", when, name, rRefsAfter[name], sum, cr.Stdout)
+							return
+						}
+					}
+					for name := range rRefsAfter {
+						if _, ok := refsAfter[name]; !ok && !strings.HasPrefix(name, "txs/") {
+							res.Violate(pfx+"-mirror-incomplete", "%s: after `push --mirror` the remote still has ref %s which does not exist locally", when, name)
+							return
+						}
+					}
+					res.probe("mirror_push", 1)
+				}
+				if success && len(op.Specs) > 0 || op.Mirror {
+					// repeat / idempotence checks below are for the single-branch form
+					if len(srv.RefUpdates) > updStart {
+						pushes++
+					}
+					break
 				}
 				if success && !faultDuring && lastFaultAt <= reqStart {
 					if len(srv.RefUpdates) > updStart {
